@@ -96,6 +96,64 @@ def sibling_dir_listings(max_entries):
     return out
 
 
+TWIN_SLOTS = (b"a", b"a-", b"c/x", b"c/y")  # two directories at depth 1 (names around '/'), two nested at depth 2
+TWIN_CONTENTS = {
+    "-": (),
+    "X": ((b"f", "fX"),),
+    "Y": ((b"f", "fY"),),
+    "XX": ((b"f", "fX"), (b"g", "fX")),
+}
+
+
+def twin_listings(contents):
+    """Every assignment of one of `contents` (names in TWIN_CONTENTS; "-" = directory absent) to the four
+    directory slots: the square contains every way in which two, three or four directories hold the same
+    subtree in A and the same (or a different, or diverging) subtree in B - at depth 1, nested, and across depths."""
+    out = []
+    for combo in itertools.product(contents, repeat=len(TWIN_SLOTS)):
+        L = []
+        for slot, c in zip(TWIN_SLOTS, combo):
+            for name, kind in TWIN_CONTENTS[c]:
+                L.append((slot + b"/" + name,) + KIND[kind])
+        out.append(tuple(sorted(L)))
+    return out
+
+
+DUP_SOURCES = (b"a", b"a.b", b"b")
+DUP_TARGETS = (b"a0", b"c/n1", b"c/n2")
+
+
+def dupsrc_listings():
+    """(A-listings, B-listings) for duplicate-content rename sources.  A: two or three of the source paths, all
+    blob X.  B: every source path independently absent / kept (fX) / modified (fY) / chmod (xX), plus every subset
+    of three new paths holding X - so for one blob id the sources are any mix of deleted, modified and unchanged
+    files, in every path order, with 0..3 places where the content turns up again."""
+    A = []
+    for ps in subsets(DUP_SOURCES, 3, 2):
+        A.append(tuple((p,) + KIND["fX"] for p in ps))
+    B = []
+    for combo in itertools.product(("-", "fX", "fY", "xX"), repeat=len(DUP_SOURCES)):
+        base = [(p,) + KIND[k] for p, k in zip(DUP_SOURCES, combo) if k != "-"]
+        for ts in subsets(DUP_TARGETS):
+            B.append(tuple(sorted(base + [(t,) + KIND["fX"] for t in ts])))
+    return A, B
+
+
+def family_lists(fam):
+    """-> (row listings, column listings) of a family; the pairs are rows x columns (a square unless stated)."""
+    name, n, kinds, _cfg = fam
+    if n == "twins":
+        L = twin_listings(kinds)
+        return L, L
+    if n == "dupsrc":
+        return dupsrc_listings()
+    if n == "dupsrc-rev":
+        A, B = dupsrc_listings()
+        return B, A
+    L = listings(n, kinds)
+    return L, L
+
+
 def show(listing):
     return "{" + ", ".join("%s:%s" % (p.decode(), KIND_NAME.get((m, s), "%o/%s" % (m, s[:6].decode()))) for p, m, s in listing) + "}"
 
@@ -163,6 +221,22 @@ CFGSETS = {
         "none_id": False,
         "patch": "two",
     },
+    "twin": {  # the cube (want_unchanged switches pruning off), one filter into a twin, three detector runs
+        "plain": CUBE,
+        "filt": [((b"a",), False), ((b"a-",), True)],
+        "rd": [("default", False, False), ("default", False, True), ("find_copies_harder", False, False)],
+        "rdfilt": [],
+        "none_id": False,
+        "patch": "two",
+    },
+    "dupsrc": {  # every detector variant, with and without want_unchanged
+        "plain": [(False, False, False)],
+        "filt": [],
+        "rd": [(v, False, wu) for v in ("default", "find_copies_harder", "rewrite_threshold") for wu in (False, True)] + [("default", True, False)],
+        "rdfilt": [],
+        "none_id": False,
+        "patch": "two",
+    },
     "similar": {
         "plain": [(False, False, False)],
         "filt": [],
@@ -175,14 +249,18 @@ CFGSETS = {
 
 
 def families(quick):
-    """[(name, max entries per listing, kinds, config set)].  Every family is the FULL square (all ordered
-    pairs) of its listing set; the bounds are sized by measured cost (~0.2 ms per tree_changes call)."""
+    """[(name, max entries per listing | generator name, kinds | generator argument, config set)].  Every family is
+    the FULL product rows x columns of family_lists() - the full square (all ordered pairs) of one listing set except
+    for dupsrc / dupsrc-rev; the bounds are sized by measured cost (~0.2 ms per tree_changes call)."""
     if quick:
         return [
             ("kinds1", 1, ALL8, "full"),  # 65 listings: every kind -> kind transition, file <-> dir
             ("shapes", 3, ("fX",), "mid2"),  # 69 listings: every shape pair, one kind (=> renames everywhere)
             ("two", 2, ("fX", "fY", "lX"), "lean"),  # 241 listings
             ("similar", 2, ("fX", "fZ"), "similar"),  # 113 listings: inexact renames
+            ("twins", "twins", ("-", "X", "Y"), "twin"),  # 81 listings: directories with equal subtrees (see twin_listings)
+            ("dupsrc", "dupsrc", None, "dupsrc"),  # 4 x 512: several rename sources with one blob id (see dupsrc_listings)
+            ("dupsrc-rev", "dupsrc-rev", None, "dupsrc"),  # 512 x 4: the same pairs backwards
         ]
     return [
         ("kinds1", 1, ALL8, "filters2"),
@@ -191,6 +269,9 @@ def families(quick):
         ("two-kinds5", 2, ("fX", "fY", "xX", "lX", "g1"), "lean"),  # 641 listings
         ("three", 3, ("fX", "fY"), "cube"),  # 401 listings
         ("similar", 2, ("fX", "fZ", "fY"), "similar"),  # 241 listings
+        ("twins", "twins", ("-", "X", "Y", "XX"), "twin"),  # 256 listings
+        ("dupsrc", "dupsrc", None, "dupsrc"),
+        ("dupsrc-rev", "dupsrc-rev", None, "dupsrc"),
     ]
 
 
@@ -694,6 +775,10 @@ def classify(got, exp_recs, exp_unch, ia, ib, it, cts, wu, filters, allow_rename
                     above = any(f.startswith(side[0] + b"/") for f in filters) and (side[0] in ia.dirs or side[0] in ib.dirs)
                     return "outside-path-filter:" + ("file-where-other-tree-has-directory-above-filter" if above else "unrelated-path")
     for t, o, n in got:
+        if t == "rename" and o[0] in fb and o[0] not in news:
+            # a rename removes its source: the path must be gone from B (or be written again by another change)
+            return "rename-source-still-in-second-tree"
+    for t, o, n in got:
         if t in ("rename", "copy"):
             if (o[1] & gt.IFMT) != (n[1] & gt.IFMT):
                 return "%s-across-file-types" % t
@@ -1030,13 +1115,17 @@ def case_pair(acc: Acc, impl, cfgname, A, B):
 
 
 def family_infos(st, fam, acc=None):
-    name, n, kinds, cfgname = fam
+    """-> (row infos, column infos); the same list twice for a square family."""
+    name = fam[0]
     if name not in st.fams:
-        infos = [Info(L) for L in listings(n, kinds)]
-        git_write_trees(st, [i.built for i in infos])
-        for i in infos:
-            put_reference_trees(st, i, acc)
-        st.fams[name] = infos
+        rows, cols = family_lists(fam)
+        cinfos = [Info(L) for L in cols]
+        rinfos = cinfos if rows is cols else [Info(L) for L in rows]
+        for infos in ([cinfos] if rinfos is cinfos else [rinfos, cinfos]):
+            git_write_trees(st, [i.built for i in infos])
+            for i in infos:
+                put_reference_trees(st, i, acc)
+        st.fams[name] = (rinfos, cinfos)
     return st.fams[name]
 
 
@@ -1057,9 +1146,9 @@ def work(task):
         fam = params
         cfg = CFGSETS[fam[3]]
         _S["cfgname"] = fam[3]
-        infos = family_infos(st, fam, acc)
+        rinfos, infos = family_infos(st, fam, acc)
         rows = items
-        pairs = [(infos[a].tid, infos[b].tid) for a in rows for b in range(len(infos))]
+        pairs = [(rinfos[a].tid, b.tid) for a in rows for b in infos]
         gitres = {}
         for gk in needed_gitkeys(cfg):
             flags, filters = git_flags(gk)
@@ -1067,12 +1156,12 @@ def work(task):
             acc.count("git_batch_processes")
         k = 0
         for a in rows:
-            ia = infos[a]
+            ia = rinfos[a]
             for ib in infos:
                 eval_pair(acc, st, cfg, ia, ib, gitres, k)
                 k += 1
         acc.count("pairs:" + fam[0], k)
-        acc.sample({"impl": impl, "family": fam[0], "first_row": show(infos[rows[0]].L), "rows": len(rows), "columns": len(infos)}, cap=1)
+        acc.sample({"impl": impl, "family": fam[0], "first_row": show(rinfos[rows[0]].L), "rows": len(rows), "columns": len(infos)}, cap=1)
     else:
         raise AssertionError(kind)
     acc.note("bound:" + impl, bound_note(st))
@@ -1093,8 +1182,8 @@ def run(ctx):
     nmax = listing_bound(q)
     Ls = listings(nmax, ALL8) + sibling_dir_listings(3 if q else 4)
     fams = families(q)
-    sizes = {f[0]: len(listings(f[1], f[2])) for f in fams}
-    total_pairs = sum(v * v for v in sizes.values())
+    sizes = {f[0]: tuple(len(x) for x in family_lists(f)) for f in fams}  # (rows, columns)
+    total_pairs = sum(r * c for r, c in sizes.values())
     for impl in IMPLS:
         tasks = []
         lst = ctx.order(Ls)
@@ -1102,9 +1191,9 @@ def run(ctx):
             tasks.append((impl, "listings", None, part))
         for fam in fams:
             name, n, kinds, cfgname = fam
-            N = sizes[name]
+            N, NC = sizes[name]
             per_pair = len(CFGSETS[cfgname]["plain"]) + len(CFGSETS[cfgname]["filt"]) + 2 * len(CFGSETS[cfgname]["rd"]) + len(CFGSETS[cfgname]["rdfilt"]) + 4
-            rows_per_task = max(1, min(N, int(25000 / (N * per_pair)) or 1))
+            rows_per_task = max(1, min(N, int(25000 / (NC * per_pair)) or 1))
             rows = ctx.order(range(N))
             for i in range(0, N, rows_per_task):
                 tasks.append((impl, "pairs", fam, rows[i : i + rows_per_task]))
@@ -1128,7 +1217,10 @@ def run(ctx):
             "kinds {100644,100755,120000} x {X,Y} + 160000 x {G1,G2}, each in every input order (%d builds per pass): tree id "
             "and every stored tree byte-identical to the reference model / git mktree --batch, canonical entry order by an "
             "independent comparator, iter_tree_contents == listing, tree_lookup_path on all %d pool paths.  (P) the full "
-            "square of each family %s (listings per family %r; %d ordered pairs per pass): tree_changes under the listed flag "
+            "product rows x columns (a square except dupsrc*) of each family %s; twins = every assignment of a subtree "
+            "{absent, {f:X}, {f:Y}[, {f:X,g:X}]} to the directories a, a-, c/x, c/y (directories with equal subtrees on both "
+            "sides); dupsrc = 2..3 files with blob X in A x (each source absent/kept/modified/chmod, every subset of 3 new "
+            "paths with X) in B, and backwards ((rows, columns) per family %r; %d ordered pairs per pass): tree_changes under the listed flag "
             "sets (cube want_unchanged x include_trees x change_type_same, tree id None, path filters: %d singles + %d pairs, "
             "RenameDetector default/find_copies_harder/rewrite_threshold) judged by: patch(diff, flatten(A)) == flatten(B), "
             "each path once per side, sides exist, == reference raw diff == git diff-tree -r [-t] --raw -z --no-renames "
@@ -1136,12 +1228,14 @@ def run(ctx):
             "changes) == tree(B) for all orders of <=3 changes (else 4 orders).  evaluations = builds + tree_changes calls + "
             "commit_tree_changes calls."
             % (len(Ls), nmax, [p.decode() for p in PATHS], sum(_fact(len(L)) for L in Ls), len(LOOKUP_PATHS),
-               [(f[0], "<=%d entries" % f[1], list(f[2]), f[3]) for f in fams], sizes, total_pairs, len(F1), len(F2))
+               [(f[0], ("<=%d entries" % f[1]) if isinstance(f[1], int) else "generator " + f[1], list(f[2] or ()), f[3]) for f in fams],
+               sizes, total_pairs, len(F1), len(F2))
         ),
         exhaustive=True,
         bounds={
             "listing_max_entries": nmax, "listings": len(Ls), "paths": len(PATHS), "kinds": len(ALL8),
-            "families": {f[0]: {"max_entries": f[1], "kinds": list(f[2]), "configs": f[3], "listings": sizes[f[0]], "pairs": sizes[f[0]] ** 2} for f in fams},
+            "families": {f[0]: {"max_entries_or_generator": f[1], "kinds": list(f[2] or ()), "configs": f[3], "rows": sizes[f[0]][0],
+                                "columns": sizes[f[0]][1], "pairs": sizes[f[0]][0] * sizes[f[0]][1]} for f in fams},
             "pairs_per_pass": total_pairs, "passes": list(IMPLS),
             "config_sets": {k: {"plain": len(v["plain"]), "filters": len(v["filt"]), "rename": len(v["rd"]), "rename_x_filters": len(v["rdfilt"]), "patch_orders": v["patch"]} for k, v in CFGSETS.items()},
         },
